@@ -216,17 +216,32 @@ func (ex *Exploration) sortedFound() []*Found {
 	return fs
 }
 
-// Reproductions re-executes a witness n times and counts how often the same violation shows.
-func Reproductions(env *Env, cfg *Config, f *Found, n int) int {
-	hit := 0
-	for i := 0; i < n; i++ {
-		r := Execute(env, cfg, f.Path)
-		for _, v := range r.Viol {
-			if v.Oracle == f.Oracle && v.Sig == f.Sig {
-				hit++
-				break
-			}
+// Reproductions re-executes every witness n times (in parallel) and counts how often the same
+// violation shows again.
+func Reproductions(env *Env, cfg *Config, fs []*Found, n int) []int {
+	hits := make([]int, len(fs))
+	var mu sync.Mutex
+	var wg sync.WaitGroup
+	sem := make(chan struct{}, workers())
+	for i, f := range fs {
+		for k := 0; k < n; k++ {
+			wg.Add(1)
+			go func(i int, f *Found) {
+				defer wg.Done()
+				sem <- struct{}{}
+				defer func() { <-sem }()
+				r := Execute(env, cfg, f.Path)
+				for _, v := range r.Viol {
+					if v.Oracle == f.Oracle && v.Sig == f.Sig {
+						mu.Lock()
+						hits[i]++
+						mu.Unlock()
+						break
+					}
+				}
+			}(i, f)
 		}
 	}
-	return hit
+	wg.Wait()
+	return hits
 }
